@@ -25,7 +25,7 @@ def clauses_for(cfg):
     return cl
 
 
-STEP = ["C01_ClosedStepCentral", "C01_ClosedStepUpwind", "C01_ClosedStepExplicit"]
+STEP = ["C01_ClosedStepCentral", "C01_ClosedStepUpwind", "C01_ClosedStepExplicit", "C01_ClosedStepExplicitUpdate"]
 for _c in STEP:
     opscheck.NEEDS[_c] = []
 
